@@ -4,6 +4,7 @@ package c04
 
 import (
 	"fmt"
+	"os"
 	"strings"
 	"sync"
 	"testing"
@@ -80,6 +81,29 @@ func TestCheck(t *testing.T) {
 	var states, transitions int64
 	var mu sync.Mutex
 	noopKinds := map[string]int{} // store/revert transitions per kind of no-op-entry block
+	// Part L (longlived.go) first: it is the small one, and the only one in which reads are operations of the
+	// history. Its fork bases are the states of depth <= 1 of the same search (shared alphabet), in both tiers.
+	for _, newState := range []bool{true, false} {
+		for ci, vc := range versionConfigs {
+			if r.Quick() && ci >= 2 {
+				continue
+			}
+			label := vc.name + hist.Backend(newState)
+			newState := newState
+			st := hist.Explore(hist.Config{
+				NewState: newState, Depth: 1, VersionAt: vc.at, Run: r, Label: label + " [part L bases]",
+				Visit: func(n *hist.Node, bc *blockchain.Blockchain) {
+					r.Add("longlived_fork_bases", 1)
+					checkLongLivedForks(r, n, vc.at, newState, label)
+				},
+			})
+			r.Add("longlived_base_search_transitions", int64(st.Transitions))
+		}
+	}
+	if os.Getenv("VERIF_C04_ONLY_PART_L") != "" { // development aid: evidence of such a run is not valid
+		r.Incomplete("VERIF_C04_ONLY_PART_L set: only part L ran")
+		r.Finish()
+	}
 	for _, newState := range []bool{false, true} {
 		for ci, vc := range versionConfigs {
 			if r.Quick() && ci >= 2 {
@@ -136,8 +160,14 @@ func TestCheck(t *testing.T) {
 		"(on residue: full Reader-API sweep + storing a further block must agree with the never-stored twin); fork pairs X,Y of depth<=2 from every state of depth<=%d: S.X.revert^|X|.Y == S.Y, on one long-lived node and (|X|=1, pairs of the shared alphabet) across process lifetimes: graceful shutdown + restart after X, ungraceful restart after Y. "+
 		"Block alphabet = shared alphabet of mc/chain + C04-local NO-OP-ENTRY blocks (a diff entry that sets a value to what it already is: nonce = current nonce, nonce 0 of a contract deployed by the same block, "+
 		"replace with the current class for a Cairo-0 and a Sierra contract, an already declared Cairo-0 class listed again, no-op nonce+class entries next to a real storage write; storage no-ops are in the shared alphabet): "+
-		"%s; in fork pairs (from states of depth<=1) at most one of x,y is such a block (as y only after a one-block branch; [x, no-op] is the store/revert transition of state S.x)", depth, forkDepthLimit,
-		ev.Pick(r, "from every state whose chain has none, as the last block of the chain (stored, reverted, image compared)", "at most one per chain, at any position")))
+		"%s; in fork pairs (from states of depth<=1) at most one of x,y is such a block (as y only after a one-block branch; [x, no-op] is the store/revert transition of state S.x). "+
+		"Part L (fork switches on ONE long-lived node with READS in the history and RE-DEPLOYS; bases = states of depth<=1): for every block x of the extended alphabet that deploys a contract, "+
+		"X = [x'] or [x', t], Y = y' with x', y' in family(x) = {x, x with other storage values + one more slot, x with the deployed contract's storage dropped/given} (y' = x' included), "+
+		"t in {nonce+1 only, %szero to a never-written slot, real storage write} of the deployed contract%s; read positions = after every store of the branch and after the reverts, masks %s: "+
+		"at a read position the head state's tries (class trie, contract trie, every storage trie: root, leaves, proofs) and plain reads are asked and must equal the answers of a RESTARTED node on the same bytes; "+
+		"after Y the same sweep and the full Reader API must equal the node that stored Y directly", depth, forkDepthLimit,
+		ev.Pick(r, "from every state whose chain has none, as the last block of the chain (stored, reverted, image compared)", "at most one per chain, at any position"),
+		ev.Pick(r, "", "class replaced only, "), ev.Pick(r, " (quick: x' is x or x with other storage)", " or any block of the shared alphabet"), ev.Pick(r, "{none, all}", "all (second block of the shared alphabet: {none, all})")))
 	r.Finish()
 }
 
